@@ -228,6 +228,8 @@ def _splice(caller, bi, helper):
                     fwd[loff + pl] = tgt
     for l in helper['locals']:
         caller['locals'].append(dict(l, inlined_from=helper['path']))
+    if not t['dest']['p']:
+        caller['locals'][loff]['ret_dest'] = t['dest']['l']      # for q.error_blocks: a hand-written `?` on the result is judged on the CFG
     # `helper(..)?`: the call's destination is consumed only by Try::branch in the continuation block
     tgt_blk = caller['blocks'][t['target']] if isinstance(t.get('target'), int) else None
     if tgt_blk is not None and not t['dest']['p']:
@@ -263,6 +265,21 @@ def _splice(caller, bi, helper):
             arms = dict((v, b_) for v, b_ in tC['targets'])
             if 1 in arms and 0 in arms:
                 brk = arms[1]
+    # hand-written `?`: `match helper(..) { Ok(v) => .., Err(e) => .. }` / `if let Err(e) = helper(..) { .. }` - the continuation
+    # block reads the discriminant of the result and switches on it.  An error exit of the helper can be threaded straight to the
+    # edge taken for discriminant 1 (whatever that arm does: the value *is* an Err there)
+    mroute = None
+    if brk is None and isinstance(target, int) and not dest['p']:
+        tb_ = caller['blocks'][target]
+        tt_ = tb_['term']
+        dl_ = [st['p']['l'] for st in tb_['stmts'] if st['k'] == 'assign' and st['rv']['k'] == 'discr' and st['rv']['p']['l'] == dest['l'] and not st['rv']['p']['p']]
+        if len(dl_) == 1 and tt_ and tt_['k'] == 'switch' and tt_['discr'].get('k') in ('copy', 'move') and tt_['discr']['p']['l'] == dl_[0] and \
+                'Result<' in caller['locals'][dest['l']]['ty'].replace('result::Result', 'Result'):
+            e1 = [b_ for v_, b_ in tt_['targets'] if v_ == 1]
+            if e1:
+                mroute = e1[0]
+            elif any(v_ == 0 for v_, _ in tt_['targets']) and isinstance(tt_.get('otherwise'), int):
+                mroute = tt_['otherwise']
     nhelper = len(helper['blocks'])
     for hb in helper['blocks']:
         nb = _remap(hb, loff, boff)
@@ -311,6 +328,34 @@ def _splice(caller, bi, helper):
                 nb['term']['target'] = n0
             else:
                 nb['term'] = {'k': 'goto', 'target': n0, 'span': nb['term'].get('span') if nb['term'] else span, 'macros': []}
+    elif mroute is not None:
+        tb_ = caller['blocks'][target]
+        for i, how in _error_exits(caller, boff, nhelper, loff):
+            n0 = len(caller['blocks'])
+            caller['blocks'].append({'stmts': [{'k': 'assign', 'p': copy.deepcopy(dest), 'rv': {'k': 'use', 'op': {'k': 'move', 'p': {'l': loff, 'p': [], 'ty': helper['locals'][0]['ty']}}},
+                                                'span': span, 'macros': []}] + copy.deepcopy(tb_['stmts']),
+                                     'term': {'k': 'goto', 'target': mroute, 'span': span, 'macros': []}, 'cleanup': False})
+            nb = caller['blocks'][i]
+            if how == 'call':
+                nb['term']['target'] = n0
+            else:
+                nb['term'] = {'k': 'goto', 'target': n0, 'span': nb['term'].get('span') if nb['term'] else span, 'macros': []}
+
+
+def _error_exits(caller, first, nhelper, loff):
+    exits = []
+    for i in range(first, first + nhelper):
+        nb = caller['blocks'][i]
+        if nb.get('cleanup'):
+            continue
+        st_err = any(st['k'] == 'assign' and st['p']['l'] == loff and not st['p']['p'] and st['rv']['k'] == 'agg' and st['rv'].get('variant') == 'Err'
+                     for st in nb['stmts'])
+        ht = nb['term']
+        call_err = bool(ht) and ht['k'] == 'call' and ht['dest']['l'] == loff and not ht['dest']['p'] and \
+            (ht.get('fn') or {}).get('orig', '').endswith('from_residual')
+        if st_err or call_err:
+            exits.append((i, 'call' if call_err else 'stmt'))
+    return exits
 
 
 def apply(j):
